@@ -324,7 +324,9 @@ std::string dumplayout(const ak::ContentPtr& cp) {
     out += "],\"d\":[";
     bool first = true;
     numpy_elems(a, 0, reinterpret_cast<const char*>(a->data()), out, first);
-    return out + "]" + P + "}";
+    out += "]";
+    if (a->dtype() == ak::util::dtype::datetime64 || a->dtype() == ak::util::dtype::timedelta64) out += ",\"fmt\":" + jstr(a->format());
+    return out + P + "}";
   }
   if (const ak::RegularArray* a = dynamic_cast<const ak::RegularArray*>(c))
     return "{\"c\":\"Regular\",\"size\":" + jint(a->size()) + ",\"zl\":" + jint(a->length()) + ",\"x\":" + dumplayout(a->content()) + P + "}";
@@ -576,6 +578,11 @@ static ak::ContentPtr op_content(const std::string& op, const JV& st, Session& S
   if (op == "localindex") return src->localindex(geti(st, "axis", 1), 0);
   if (op == "reduce") {
     std::shared_ptr<ak::Reducer> r = mkreducer(gets(st, "reducer", "sum"));
+    if (st.HasMember("initial") && st["initial"].IsNumber()) {
+      double f = st["initial"].GetDouble();
+      if (gets(st, "reducer", "") == "min") r = std::make_shared<ak::ReducerMin>(f, (uint64_t)(f < 0 ? 0 : f), (int64_t)f);
+      if (gets(st, "reducer", "") == "max") r = std::make_shared<ak::ReducerMax>(f, (uint64_t)(f < 0 ? 0 : f), (int64_t)f);
+    }
     return src->reduce(*r, geti(st, "axis", -1), geti(st, "mask", 0) != 0, geti(st, "keepdims", 0) != 0);
   }
   if (op == "sort") return src->sort(geti(st, "axis", -1), geti(st, "ascending", 1) != 0, geti(st, "stable", 0) != 0);
@@ -588,7 +595,10 @@ static ak::ContentPtr op_content(const std::string& op, const JV& st, Session& S
       for (auto& x : st["keys"].GetArray()) lookup->push_back(std::string(x.GetString()));
       if ((int64_t)lookup->size() != n) throw std::invalid_argument("if provided, the length of 'keys' must be 'n'");
     }
-    return src->combinations(n, geti(st, "replacement", 0) != 0, lookup, ak::util::Parameters(), geti(st, "axis", 1), 0);
+    ak::util::Parameters cparams;
+    if (st.HasMember("params") && st["params"].IsObject())
+      for (auto& m : st["params"].GetObject()) cparams[std::string(m.name.GetString())] = std::string(m.value.GetString(), m.value.GetStringLength());
+    return src->combinations(n, geti(st, "replacement", 0) != 0, lookup, cparams, geti(st, "axis", 1), 0);
   }
   if (op == "rpad") return src->rpad(geti(st, "target", 0), geti(st, "axis", 1), 0);
   if (op == "rpad_and_clip") return src->rpad_and_clip(geti(st, "target", 0), geti(st, "axis", 1), 0);
@@ -669,6 +679,12 @@ static ak::ContentPtr op_content(const std::string& op, const JV& st, Session& S
   }
 #define OPTCLASSES(M) M(ak::IndexedOptionArray32) M(ak::IndexedOptionArray64) M(ak::ByteMaskedArray) M(ak::BitMaskedArray) M(ak::UnmaskedArray)
   if (op == "project") {
+    if (st.HasMember("mask")) {
+      ak::Index8 m = mkindex<int8_t>(st["mask"]);
+#define CVM(T) if (TRYCAST(T, a)) return a->project(m);
+      OPTCLASSES(CVM) CVM(ak::IndexedArray32) CVM(ak::IndexedArrayU32) CVM(ak::IndexedArray64)
+#undef CVM
+    }
 #define CV(T) if (TRYCAST(T, a)) return a->project();
     OPTCLASSES(CV) CV(ak::IndexedArray32) CV(ak::IndexedArrayU32) CV(ak::IndexedArray64)
 #undef CV
@@ -734,6 +750,9 @@ static std::string run_step(const JV& st, Session& S) {
     if (op == "digest") { return "{\"ok\":1,\"digest\":" + jstr(digest(S.get(gets(st, "src", "")))) + "}"; }
     std::string other;
     if (other_ops(op, st, S, other)) return other;
+#ifdef AKWORKER_SHARED
+    if (l2_ops(op, st, S, other)) return other;
+#endif
     bool handled = false; std::string extra;
     ak::ContentPtr out = op_content(op, st, S, handled, extra);
     if (!handled) throw HarnessError("unknown op '" + op + "'");
@@ -756,28 +775,34 @@ static std::string run_step(const JV& st, Session& S) {
   catch (std::exception& e) { return "{\"ok\":0,\"exc\":\"Exception\",\"msg\":" + jstr(firstline(e.what())) + "}"; }
 }
 
+std::string process_line(const std::string& line) {
+  rj::Document doc;
+  doc.Parse<rj::kParseNanAndInfFlag>(line.c_str());
+  if (doc.HasParseError() || !doc.IsObject()) return "{\"id\":null,\"harness\":\"bad case json\"}";
+  Session S;
+  std::string out = "{\"id\":";
+  const JV& id = doc["id"];
+  if (id.IsString()) out += jstr(id.GetString()); else if (id.IsNumber()) out += jint(id.GetInt64()); else out += "null";
+  out += ",\"res\":[";
+  bool first = true;
+  bool stop_on_error = geti(doc, "stop_on_error", 0) != 0;
+  for (auto& st : need(doc, "steps").GetArray()) {
+    std::string r = run_step(st, S);
+    out += (first ? "" : ",") + r; first = false;
+    if (stop_on_error && r.compare(0, 7, "{\"ok\":1") != 0) break;
+  }
+  out += "]}";
+  return out;
+}
+
+#ifndef AKWORKER_SHARED
 int main(int argc, char** argv) {
   std::ios::sync_with_stdio(false);
   std::string line;
   while (std::getline(std::cin, line)) {
     if (line.empty()) continue;
-    rj::Document doc;
-    doc.Parse<rj::kParseNanAndInfFlag>(line.c_str());
-    if (doc.HasParseError() || !doc.IsObject()) { std::cout << "{\"id\":null,\"harness\":\"bad case json\"}\n" << std::flush; continue; }
-    Session S;
-    std::string out = "{\"id\":";
-    const JV& id = doc["id"];
-    if (id.IsString()) out += jstr(id.GetString()); else if (id.IsNumber()) out += jint(id.GetInt64()); else out += "null";
-    out += ",\"res\":[";
-    bool first = true;
-    bool stop_on_error = geti(doc, "stop_on_error", 0) != 0;
-    for (auto& st : need(doc, "steps").GetArray()) {
-      std::string r = run_step(st, S);
-      out += (first ? "" : ",") + r; first = false;
-      if (stop_on_error && r.compare(0, 7, "{\"ok\":1") != 0) break;
-    }
-    out += "]}";
-    std::cout << out << "\n" << std::flush;
+    std::cout << process_line(line) << "\n" << std::flush;
   }
   return 0;
 }
+#endif
